@@ -30,6 +30,17 @@ CLAIMED.update({
    note="Yield-level interleavings (expiry inside the receive copy etc.) are not reached by this sequential engine. Time is virtual, so 'never hangs' is decided as 'resolves at the modelled deadline'."),
 })
 
+CLAIMED.update({
+ "C02": dict(engine="a2", category="exploration", design_ref="§5 C02",
+   technique="schedule exploration as generated-input search: bounded-exhaustive enumeration of pre-emption-bounded schedules plus random/PCT schedules over the real PDU loop at verif-hooks yield points, with an ownership/transition monitor as oracle",
+   text="All parties (1..3 tasks, transmit, receive) run as coroutines; the schedule (which party runs at each of ~50 yield points per request) is the generated input. For {1 slot,2 tasks}, {1 slot,3 tasks}, {2 slots,2 tasks} every schedule with <= P pre-emptions is enumerated (P=2/1/1 quick, 3/2/2 thorough); random and PCT schedules beyond. The monitor derives ownership windows from claims/releases and flags two parties in one buffer, buffer accesses outside ownership, lifecycle transitions outside the documented order, and disagreement with the slot inspector.",
+   note="Sequentially consistent interleavings of instrumented points only (no weak-memory effects, nothing inside one copy). Deadline expiry / abandonment while TX/RX is inside is C06's domain and excluded here."),
+})
+CLAIMED["C01"]["text"] += " The same scenarios are also run under yield-level schedules (engine A2: bounded-exhaustive + random/PCT), where a lost wake-up or a misrouted response shows up as a task that waits forever or completes with foreign data."
+CLAIMED["C01"]["note"] = "Yield-level part explores sequentially consistent interleavings of instrumented points only. Trusts the request/slot model in harness/vlib/src/pdusim.rs and the slot inspectors of the verif-hooks feature."
+CLAIMED["C06"]["text"] += " Engine A2 additionally moves the clock / abandons the request at every yield point of the transmit and receive paths (pre-emption-bounded enumeration on five small scenarios with a competitor for the slot, random/PCT beyond) and judges the consequences named by the property: another request sharing the buffer, foreign data, differing retransmissions, a slot lost at quiescence, a request that hangs."
+CLAIMED["C06"]["note"] = "Sequentially consistent interleavings only. Time is virtual, so 'never hangs' is decided as 'resolves at the modelled deadline / no wake-up pending'. Consequences that follow a recorded unconditional release store while TX/RX is inside are attributed to that known finding."
+
 NOT_YET = {}
 
 ALL = [f"C{i:02d}" for i in range(1,21)]
@@ -63,6 +74,7 @@ def main():
       },
       "engines":[
         {"name":"pdusim","path":"harness/vlib","serves_properties":[p for p in CLAIMED if CLAIMED[p]["engine"]=="pdusim"],"kind_free_text":"PDU-loop harness: real frame builder / TX / RX driven op by op under a virtual clock, reference frame encoder, slot snapshots through verif-hooks"},
+        {"name":"a2","path":"harness/vlib/src/a2.rs","serves_properties":["C01","C02","C06"],"kind_free_text":"yield-level scheduler: parties as ucontext coroutines on one thread, baton handed over at every verif-hooks point, schedules generated (random/PCT) or enumerated (pre-emption bounded), ownership monitor"},
       ],
       "checks":checks,
       "not_applicable":na,
